@@ -660,11 +660,15 @@ static inline int
 ra_range_touches(RegisterArea *a, RegisterAddress addr, RegisterOffset n)
 {
     /* Return -1 if area is below range; 0 if it is within the range and 1 if
-     * it is above the range */
-    if ((a->base + a->size) <= addr) {
+     * it is above the range.
+     *
+     * Distances are compared instead of end addresses: the end (base + size or
+     * addr + n) of an area or a range that reaches the top of the address space
+     * is not representable and would wrap around to zero. */
+    if ((addr >= a->base) && ((addr - a->base) >= a->size)) {
         return -1;
     }
-    if ((addr + n) <= a->base) {
+    if ((a->base >= addr) && ((a->base - addr) >= n)) {
         return 1;
     }
     return 0;
